@@ -131,8 +131,29 @@ def F7():
     if not ok: print('  compute_lla_difference int form', a, a.dtype, 'float form', b)
     return ok
 
+def F8():
+    import pandas as pd
+    from pyins import error_model
+    from pyins.util import TRAJECTORY_ERROR_COLS
+    t = np.arange(0, 10, 0.1)
+    lla = np.column_stack([55 + 1e-5 * t, 37 + 2e-5 * t, 100 + 0 * t])
+    rph = np.column_stack([0 * t, 0 * t, 30 + 0 * t])
+    traj, _ = sim.generate_imu(t, lla, rph)
+    vals = dict(north=10., east=-5., down=2., VN=.1, VE=-.2, VD=.05, roll=.1, pitch=-.2,
+                heading=.5)
+    e1 = pd.Series(vals)[TRAJECTORY_ERROR_COLS]
+    e2 = pd.Series({k: vals[k] for k in ['roll', 'pitch', 'heading', 'VN', 'VE', 'VD', 'north',
+                                         'east', 'down']})
+    r1, _ = error_model.propagate_errors(traj, e1, np.zeros(3), np.zeros(3))
+    r2, _ = error_model.propagate_errors(traj, e2, np.zeros(3), np.zeros(3))
+    d = float(np.abs(r1.values - r2.values).max())
+    if d > 1e-9:
+        print('  propagate_errors: the same PvaError with its labels in another order gives a '
+              'result that differs by', d)
+    return d <= 1e-9
+
 if __name__ == '__main__':
-    which = sys.argv[1:] or ['F1', 'F2', 'F3', 'F4', 'F5', 'F6', 'F7']
+    which = sys.argv[1:] or ['F1', 'F2', 'F3', 'F4', 'F5', 'F6', 'F7', 'F8']
     for w in which:
         r = globals()[w]()
         print(w, 'PASS' if r else 'FAIL')
